@@ -8,7 +8,8 @@ EXTENDS Annot, Json
 CONSTANTS Depth,        \* length of the histories explored
           MaxSheets,
           Pairing,      \* "one": both enumerations of a save use the same seed (intended); "two": independent seeds (deviant)
-          Family,       \* "links": sheet list, links, comments, names, merges; "rest": the other kinds; "all": everything;
+          Family,       \* "authors": only comments, on one sheet, by a pool of four mixed-case authors;
+                        \* "links": sheet list, links, comments, names, merges; "rest": the other kinds; "all": everything;
                         \* "links1": as "links", starting from one sheet only (deeper histories)
           Wide,         \* TRUE: draw parameters at random (simulation)
           EmitReplay    \* TRUE: print one REPLAY line per behaviour of length Depth that ends with a save
@@ -20,13 +21,18 @@ SheetNames == {"S1", "My & Sheet", "O'Brien"}
 CellPool   == <<"A1", "B2", "C3">>
 ExtUrls    == {"http://a.example/?x=1&y=2", "http://b.example/"}
 LocUrls    == {"'My & Sheet'!A1"}
-AuthorPool == <<"Ann", " B&b <c>\t">>            \* the second one with blanks at both ends
-CommentRC  == {<<2, 2>>, <<7, 3>>}
+(* Family "authors": three comments on one sheet by authors whose case-insensitive order differs from their byte     *)
+(* order and two of which differ in case only; TLC enumerates every order of the author table (AuSeeds)               *)
+AU3 == Family = "authors"
+AuthorPool == IF AU3 THEN <<"Alice", "bob", "Bob", "Carol">>
+              ELSE <<"Ann", " B&b <c>\t">>            \* the second one with blanks at both ends
+CommentRC  == IF AU3 THEN {<<2, 2>>, <<7, 3>>, <<4, 1>>} ELSE {<<2, 2>>, <<7, 3>>}
 Run(t, b) == [t |-> t, b |-> b]
 (* comment texts as run lists: one plain run; the layout applications write (bold "Author:" run, then a run that   *)
 (* starts with a line feed and ends with a blank and a tab, then a run of white space only)                         *)
-Texts      == { <<Run("x & y <z>", FALSE)>>,
-                <<Run("Ann:", TRUE), Run("\nplease check this value \t", FALSE), Run(" ", FALSE)>> }
+Texts      == IF AU3 THEN { <<Run("note", FALSE)>> }
+              ELSE { <<Run("x & y <z>", FALSE)>>,
+                     <<Run("Ann:", TRUE), Run("\nplease check this value \t", FALSE), Run(" ", FALSE)>> }
 Tips       == {"", " tip & <more> "}
 Codes      == {"Sheet1", "Tabelle_1"}
 MergePool  == {"A1:B2", "D4:E9"}
@@ -62,7 +68,7 @@ AuSeeds  == Perms(AuthorPool \o <<"">>)
 Restrict(seed, S) == SelectSeq(seed, LAMBDA x : x \in S)
 Pick(S) == IF Wide THEN {RandomElement(S)} ELSE S
 
-MCInit == /\ \E n \in Pick(IF Family = "links1" THEN {<<"S1">>} ELSE {<<"S1">>, <<"S1", "My & Sheet">>}) : wb = InitWb(n) /\ hist = <<[a |-> "Init", sheets |-> n]>>
+MCInit == /\ \E n \in Pick(IF Family \in {"links1", "authors"} THEN {<<"S1">>} ELSE {<<"S1">>, <<"S1", "My & Sheet">>}) : wb = InitWb(n) /\ hist = <<[a |-> "Init", sheets |-> n]>>
           /\ last = [op |-> "init"] /\ steps = 0
 L == Family \in {"links", "links1", "all"}
 R == Family \in {"rest", "all"}
@@ -91,7 +97,7 @@ MCAddLink ==
      \/ \E i \in Pick(Sh), k \in Pick(DOMAIN CellPool), u \in Pick(LocUrls) :
           AddLink(i, CellPool[k], u, TRUE, "") /\ LogB([a |-> "AddLink", s |-> i, cell |-> CellPool[k], url |-> u, loc |-> TRUE, tip |-> ""])
 MCAddComment ==
-  /\ L
+  /\ (L \/ AU3)
   /\ \E i \in Pick(Sh), rc \in Pick(CommentRC), k \in Pick(0..Len(AuthorPool)), tx \in Pick(Texts) :
         LET au == IF k = 0 THEN "" ELSE AuthorPool[k] IN
         AddComment(i, rc[1], rc[2], au, CatRuns(tx, 1))
